@@ -43,7 +43,7 @@ ALIASES = {
 @st.composite
 def _cases(draw):
     prof = dict(gen.PROFILES["logic"], p_group_logic=0.4, p_entities=0.2, p_meta=0.15, p_repeat_count=0.3,
-                p_or_other=0.1, p_calc_on_visible=0.15, p_bool_logic=0.12, p_trigger=0.15, p_trigger_logic=0.7, p_lit_ws=0.08)
+                p_or_other=0.1, p_calc_on_visible=0.15, p_bool_logic=0.12, p_trigger=0.15, p_trigger_logic=0.7, p_lit_ws=0.08, p_legacy_meta=0.4)
     g = gen.G(draw, prof)
     form = gen.build_form(draw, prof, g=g)
     if g.p("_", 0.7):
